@@ -30,6 +30,7 @@ Proof. vm_compute. reflexivity. Qed.
    freed, and no page that could be freed under this rule is held back - so the pages held are those from the
    last ACKed event's page on: un-ACKed events plus at most the page(s) of one ACKed event. ---- *)
 From VF Require Import PQAck PQAckProofs.
+Open Scope nat_scope.
 Theorem C12_ack_frees_exactly : forall ps h T N,
   mono ps -> (forall p, In p ps -> h <= p <= T) -> 1 <= N <= length ps ->
   ack_pages ps h T N = (nth (N - 1) ps 0, false).
